@@ -138,15 +138,23 @@ func runC07() int {
 	tier := os.Getenv("VERIF_TIER")
 	bound, maxRuns := 1, 2500
 	if tier == "thorough" {
-		bound, maxRuns = 2, 40000
+		bound, maxRuns = 2, 6000
 	}
 	rep := ev.NewReport("C07", "exploration")
 	p := &pool.Pool{Handler: "c07", N: 16, Timeout: 120 * time.Second, MemMB: 6144, MaxTasks: 1}
 	var tasks [][]byte
 	for wi, w := range c07Workloads() {
 		for mi := range merges(w) {
-			b, _ := json.Marshal(c07Task{Workload: wi, Merge: mi, Bound: bound, MaxRuns: maxRuns})
-			tasks = append(tasks, b)
+			if bound < 2 {
+				b, _ := json.Marshal(c07Task{Workload: wi, Merge: mi, Bound: bound, MaxRuns: maxRuns})
+				tasks = append(tasks, b)
+				continue
+			}
+			// deep search: one task per window of 3 first-deviation positions
+			for lo := 0; lo < 90; lo += 3 {
+				b, _ := json.Marshal(c07Task{Workload: wi, Merge: mi, Bound: bound, MaxRuns: maxRuns, Lo: lo, Hi: lo + 3})
+				tasks = append(tasks, b)
+			}
 		}
 	}
 	runs, deviating, truncated := 0, 0, 0
